@@ -550,6 +550,9 @@ def run(repo, root, log, tag=None):
             open(out_v, "w").write(txt)
         json.dump(report, open(os.path.join(coq, "Generated", "srcfuns_report.json"), "w"), indent=1)
         if rnd == 0:
+            for o, fns in report.get("restructured", {}).items():
+                res["not_comparable"].append({"lemma": None, "functions": fns, "detail": "the fields of struct %s changed" % o})
+        if rnd == 0:
             sh([os.path.join(root, "tools", "mkproject.sh")])      # a fresh clone: SrcFuns.v has just appeared
         if rnd == 0:
             for n, f in report["functions"].items():
